@@ -78,10 +78,29 @@ def coqc(path, timeout=900):
     return sh('ulimit -s unlimited 2>/dev/null; exec coqc -q -Q %s DV %s' % (COQ, path), timeout, cwd=os.path.dirname(path))
 
 
-def hygiene():
+def dep_closure(rels):
+    """Transitive closure of the DV modules required by the given .v files (relative to coq/)."""
+    seen, todo = set(), list(rels)
+    while todo:
+        rel = todo.pop()
+        if rel in seen or not os.path.exists(os.path.join(COQ, rel)):
+            continue
+        seen.add(rel)
+        txt = re.sub(r'\(\*.*?\*\)', ' ', open(os.path.join(COQ, rel)).read(), flags=re.S)
+        for m in re.finditer(r'\bFrom\s+DV\s+Require\s+(?:Import\b|Export\b)?\s*(.*?)\.(?=\s|$)', txt, re.S):
+            for mod in m.group(1).split():
+                todo.append(mod.replace('.', '/') + '.v')
+        for m in re.finditer(r'(?<!DV\s)\bRequire\s+(?:Import\b|Export\b)?\s*(.*?)\.(?=\s|$)', txt, re.S):
+            for mod in m.group(1).split():
+                if mod.startswith('DV.'):
+                    todo.append(mod[3:].replace('.', '/') + '.v')
+    return sorted(seen)
+
+
+def hygiene(only=None):
     bad = []
     rx = re.compile(FORBIDDEN)
-    for rel in coq_files():
+    for rel in (coq_files() if only is None else only):
         txt = open(os.path.join(COQ, rel)).read()
         # strip comments (non-nested approximation is enough: nested comments only make us stricter)
         stripped = re.sub(r'\(\*.*?\*\)', ' ', txt, flags=re.S)
@@ -300,7 +319,8 @@ def run_check(pid, tier, seed, replay=None):
     t0 = time.time()
     modname = 'props.' + pid.lower()
     plugin = importlib.import_module(modname)
-    work = os.path.join(VERIF, 'work', pid)
+    tag = os.environ.get('VERIF_RUN_TAG', '')
+    work = os.path.join(VERIF, 'work', pid + ('_' + tag if tag else ''))
     if not replay:
         shutil.rmtree(work, ignore_errors=True)
     os.makedirs(work, exist_ok=True)
@@ -342,9 +362,13 @@ def run_check(pid, tier, seed, replay=None):
             broken.append(('broken-obligation', f.split(':')[0], f))
         bad_th = set(re.match(r'theorem (\S+?):? ', f).group(1).rstrip(':') for f in fails if f.startswith('theorem '))
         discharged = len([t for t in theorems if t in assum and t not in bad_th])
-    hyg = hygiene()
+    closure = dep_closure(list(props_files) + [t[:-1] for t in extra_targets])
+    hyg = hygiene(closure)
     for h in hyg:
         broken.append(('broken-obligation', 'hygiene', h))
+    elsewhere = [h for h in hygiene() if h not in hyg]
+    if elsewhere:
+        print('note: forbidden constructs in files this property does not depend on (reported by their own checks / setup.sh): %s' % '; '.join(elsewhere[:3]))
 
     # 3. correspondence + oracle, per part
     rng_master = random.Random(seed)
